@@ -74,7 +74,9 @@ func FetchRecord(ctx context.Context, r Resolver, fromDomain string) (policyDoma
 // TXT records that are not DMARC policies are excluded, 'no such host' is
 // reported as an empty set.
 func lookupRecords(ctx context.Context, r Resolver, domain string) ([]string, error) {
-	txts, err := r.LookupTXT(ctx, dns.FQDN("_dmarc."+domain))
+	// The domain comes from the message header and may be written with
+	// U-labels, DNS has A-labels only (RFC 7489 Section 6.6.1).
+	txts, err := r.LookupTXT(ctx, dns.FQDN("_dmarc."+pslForm(domain)))
 	if err != nil {
 		dnsErr, ok := err.(*net.DNSError)
 		if !ok || !dnsErr.IsNotFound {
@@ -206,8 +208,9 @@ func EvaluateAlignment(fromDomain string, record *Record, results []authres.Resu
 	return res
 }
 
-// pslForm converts the domain into the form used by the Public Suffix List
-// entries: lower-case A-labels. Lookups in the list are case-sensitive.
+// pslForm converts the domain into the form used by DNS and by the Public
+// Suffix List entries: lower-case A-labels. Lookups in the list are
+// case-sensitive.
 func pslForm(domain string) string {
 	normalized, _ := dns.ForLookup(domain)
 	ascii, err := idna.ToASCII(normalized)
